@@ -138,6 +138,9 @@ pub fn monitor(log: &[Item], full_fdt: bool) -> Mon11 {
                     let (l, e, b) = p.fti.unwrap_or((0, 0, 0));
                     FdtAsm { id, l, e, b, cenc: p.cenc.unwrap_or(0), ..Default::default() }
                 });
+                if !a.is_source(p.sbn, p.esi) {
+                    continue; // repair symbol of an FEC-protected instance
+                }
                 if a.done_at_index.is_some() {
                     // carousel repetition of a complete instance: restart assembly
                     a.symbols.clear();
